@@ -167,6 +167,11 @@ func (c *ChunkComposer) RunLoop(reader io.Reader, cb OnCompleteMessage) error {
 
 		// 注意，peerChunkSize可能在一个message的多个chunk之间被（其他chunk stream上的）Set Chunk Size修改，
 		// 所以始终按剩余长度计算
+		//
+		// 一个message收到一部分后，新的包头把MsgLen改得比已收到的还小：剩余长度为负，对端非法
+		if stream.msg.Len() > stream.header.MsgLen {
+			return base.NewErrRtmpShortBuffer(int(stream.header.MsgLen), int(stream.msg.Len()), "len of msg bigger than msg len of header")
+		}
 		neededSize := stream.header.MsgLen - stream.msg.Len()
 		if neededSize > c.peerChunkSize {
 			neededSize = c.peerChunkSize
